@@ -61,7 +61,6 @@ static void orc_cas(void *addr, unsigned long expected, unsigned long nv, unsign
 #ifdef NO_LEGACY_MB	/* the other supported build configuration (configure --disable-legacy-mb) */
 #undef cmm_emit_legacy_smp_mb
 #define cmm_emit_legacy_smp_mb() do { } while (0)
-#undef CONFIG_RCU_EMIT_LEGACY_MB
 #endif
 
 #include "wfcqueue.c"		/* real wrappers + the real static inlines they are made of */
@@ -448,7 +447,7 @@ static void solo_end(const char *op, unsigned long bound)
 		vrt_freeze(i, 0);
 }
 
-#ifdef CONFIG_RCU_EMIT_LEGACY_MB
+#if defined(CONFIG_RCU_EMIT_LEGACY_MB) && !defined(NO_LEGACY_MB)
 #define LEGACY 1
 #else
 #define LEGACY 0
